@@ -5,11 +5,8 @@ import (
 	"fmt"
 	"strings"
 
-	"sigs.k8s.io/controller-runtime/pkg/client"
-
 	v1 "sigs.k8s.io/karpenter/pkg/apis/v1"
 	"sigs.k8s.io/karpenter/pkg/controllers/disruption"
-	nodeclaimdisruption "sigs.k8s.io/karpenter/pkg/controllers/nodeclaim/disruption"
 	"sigs.k8s.io/karpenter/pkg/controllers/state"
 	"sigs.k8s.io/karpenter/pkg/utils/pdb"
 )
@@ -50,26 +47,9 @@ func condStatus(nc *v1.NodeClaim, t string) string {
 }
 
 // reconcileClaim runs the REAL nodeclaim.disruption controller (Drift + Consolidation sub-reconcilers) on the
-// stored NodeClaim and returns the NodeClaim as persisted afterwards.
-func (w *World) reconcileClaim(drifted bool) (*v1.NodeClaim, error) {
-	if drifted {
-		w.Cloud.Drifted = "CloudProviderDrifted"
-	} else {
-		w.Cloud.Drifted = ""
-	}
-	ctrl := nodeclaimdisruption.NewController(w.Clock, w.Client, w.Cloud)
-	nc := &v1.NodeClaim{}
-	if err := w.Client.Get(w.Ctx, client.ObjectKey{Name: claimName}, nc); err != nil {
-		return nil, err
-	}
-	if _, err := ctrl.Reconcile(w.Ctx, nc); err != nil {
-		return nil, fmt.Errorf("nodeclaim.disruption reconcile: %w", err)
-	}
-	out := &v1.NodeClaim{}
-	if err := w.Client.Get(w.Ctx, client.ObjectKey{Name: claimName}, out); err != nil {
-		return nil, err
-	}
-	return out, nil
+// stored NodeClaim, with the faults `f` injected into that run, and returns the NodeClaim as persisted afterwards.
+func (w *World) reconcileClaim(drifted bool, f *RFault) (*v1.NodeClaim, error) {
+	return runClaimController(w.Ctx, w.Clock, w.Client, w.Cloud, drifted, f)
 }
 
 func implCandidate(raw json.RawMessage) (any, error) {
@@ -90,7 +70,7 @@ func runWorld(in *WorldIn) (*CandOut, error) {
 		return nil, err
 	}
 	if in.Reconcile && w.Claim != nil {
-		nc, err := w.reconcileClaim(in.Claim.Drifted == "True")
+		nc, err := w.reconcileClaim(in.Claim.Drifted == "True", in.Fault)
 		if err != nil {
 			return nil, err
 		}
